@@ -95,3 +95,40 @@ Proof.
   - intros k Hk. apply jget_jset_other. exact Hk.
   - intros k Hk. apply jget_jset_other. exact Hk.
 Qed.
+
+(* delivery: no deadlock while anything is under way, every internal step is progress *)
+Lemma internal_step_decreases cc cs s l s' : internal l = true -> qstep cc cs s l = Some s' -> pending s' < pending s.
+Proof.
+  unfold pending. intros Hi H. destruct l as [b| | | |n]; [discriminate| | | |]; cbn [qstep] in H.
+  - destruct (post s) as [|m r] eqn:E; [discriminate|]. destruct (List.length (cq s) <? cc); [|discriminate].
+    injection H as <-. cbn [post cq from_backend sq]. rewrite app_length. cbn [List.length]. lia.
+  - destruct (cq s) as [|m r] eqn:E; [discriminate|]. injection H as <-. cbn [post cq from_backend sq List.length]. lia.
+  - destruct (from_backend s) as [|m r] eqn:E; [discriminate|]. destruct (List.length (sq s) <? cs); [|discriminate].
+    injection H as <-. cbn [post cq from_backend sq]. rewrite app_length. cbn [List.length]. lia.
+  - destruct ((1 <=? n) && (n <=? List.length (sq s))) eqn:E; [|discriminate]. apply andb_true_iff in E. destruct E as [E1 E2].
+    apply Nat.leb_le in E1. apply Nat.leb_le in E2.
+    injection H as <-. cbn [post cq from_backend sq]. rewrite skipn_length. lia.
+Qed.
+
+Lemma pending_enabled cc cs s : 1 <= cc -> 1 <= cs -> 0 < pending s ->
+  exists l s', internal l = true /\ qstep cc cs s l = Some s'.
+Proof.
+  unfold pending. intros Hc Hs Hp.
+  destruct (cq s) as [|m r] eqn:Ecq.
+  - destruct (post s) as [|m r] eqn:Ep.
+    + destruct (sq s) as [|m r] eqn:Esq.
+      * destruct (from_backend s) as [|m r] eqn:Ef; [cbn in Hp; lia|].
+        eexists QReader, _. split; [reflexivity|]. cbn [qstep]. rewrite Ef, Esq. cbn [List.length].
+        destruct (0 <? cs) eqn:E; [reflexivity|]. apply Nat.ltb_ge in E. lia.
+      * eexists (QPoll 1), _. split; [reflexivity|]. cbn [qstep]. rewrite Esq. reflexivity.
+    + eexists QEnq, _. split; [reflexivity|]. cbn [qstep]. rewrite Ep, Ecq. cbn [List.length].
+      destruct (0 <? cc) eqn:E; [reflexivity|]. apply Nat.ltb_ge in E. lia.
+  - eexists QWriter, _. split; [reflexivity|]. cbn [qstep]. rewrite Ecq. reflexivity.
+Qed.
+
+Lemma pending_zero s : pending s = 0 -> post s = [] /\ cq s = [] /\ from_backend s = [] /\ sq s = [].
+Proof.
+  unfold pending. intros H.
+  destruct (post s); [|cbn in H; lia]. destruct (cq s); [|cbn in H; lia].
+  destruct (from_backend s); [|cbn in H; lia]. destruct (sq s); [|cbn in H; lia]. repeat split.
+Qed.
